@@ -121,7 +121,7 @@ class Check:
         else:
             ctx = mp.get_context("fork")
             pool = ctx.Pool(procs, maxtasksperchild=8)
-            results = pool.imap_unordered(_worker, jobs, chunksize)
+            results = self._watched(pool, pool.imap_unordered(_worker, jobs, chunksize), configs)
         for recs, secs, err in results:
             self.records.extend(recs)
             if recs:
@@ -132,6 +132,27 @@ class Check:
             pool.close()
             pool.join()
         return self.records
+
+    def _watched(self, pool, it, configs):
+        """A pool worker that is killed from outside (the kernel's OOM killer on a z3 blow-up) loses its task and
+        `imap_unordered` then waits for ever. Every configuration is bounded by its own time limit plus one solver
+        call, so a gap between two results longer than that means a task was lost: stop, report a harness error
+        (exit 3, no verdict) instead of hanging."""
+        limits = [int(os.environ.get("VERIF_CONFIG_TIMEOUT", "0") or 0) or (c.get("config_timeout") if isinstance(c, dict) else None) or 420 for c in configs]
+        window = int(os.environ.get("VERIF_LOST_WORKER_WINDOW", "0") or 0) or max(limits, default=420) + 900
+        seen = 0
+        while True:
+            try:
+                item = it.next(timeout=window)
+            except StopIteration:
+                return
+            except mp.TimeoutError:
+                self.errors.append(f"no result for {window}s with {len(configs) - seen} configuration(s) outstanding: a worker process was lost "
+                                   "(killed, e.g. out of memory); no verdict for the outstanding configurations")  # fmt: skip
+                pool.terminate()
+                return
+            seen += 1
+            yield item
 
     # ------------------------------------------------------------------ verdict
     def finish(
